@@ -1,10 +1,8 @@
 package main
 
 import (
-	"context"
 	"fmt"
 	"strings"
-	"time"
 
 	log "github.com/go-spring/log"
 	zzvrt "github.com/go-spring/log/zzvrt"
@@ -38,7 +36,7 @@ func crashRun(c c03Cfg, threads [][]c03Event, o *crashObs, stop bool) {
 	// not cover; a failed creation must leave the appender writing to the file it has)
 	x.FS.FaultOps = map[string]bool{"open": true}
 	zzvrt.Atomic(func() {
-		log.TimeNow = func(context.Context) time.Time { return fixedT }
+		log.TimeNow = c03Time
 		x.FS.MkdirAll("/logs")
 		f, err := x.FS.OpenFile("/logs/console.out", 0x441, 0644) // O_WRONLY|O_CREATE|O_APPEND
 		if err != nil {
@@ -148,6 +146,20 @@ func init() {
 					b.Env[zzvrt.SeamCrash] = 1
 					return crashScenario(c03Cfg{layout: layout, sink: sink, threads: shapes[shape]}, b)
 				})
+				if sink == "rolling" {
+					// C19 through the public API: the root logger routes everything (also anything the library
+					// itself might log) to the rolling appender; boundaries and failing creations, no crash:
+					// no panic, no blocked call, every acknowledged line in a file
+					register("C19", fmt.Sprintf("c19/via-refresh/%s/%s/%s", sink, layout, shape), "qt", func(tier string) *zzvrt.Scenario {
+						b := zzvrt.Bounds{Preempt: 1, Horizon: 5000}
+						b.Env[zzvrt.SeamTick] = 2
+						b.Env[zzvrt.SeamFault] = 2
+						if tier == "thorough" {
+							b.Env[zzvrt.SeamTick] = 3
+						}
+						return crashScenario(c03Cfg{layout: layout, sink: sink, threads: shapes[shape]}, b)
+					})
+				}
 				if sink == "rolling" && shape == "1x3" {
 					// the same with interval boundaries and failing file creations before the crash point
 					register("C20", fmt.Sprintf("c20/%s/%s/%s/boundaries+failed-creations", sink, layout, shape), "qt", func(tier string) *zzvrt.Scenario {
